@@ -161,6 +161,15 @@ func genNameBytes(r *rand.Rand) []byte {
 		return b
 	case 3: // high bytes (UTF-8 and arbitrary)
 		return []byte([]string{"caf\xc3\xa9", "\xe6\x97\xa5\xe6\x9c\xac", "\xff\xfe", "A\x80B", "\x7f\x01"}[r.Intn(5)])
+	case 5: // a short name and the names that differ from it only by trailing NUL bytes (written #00)
+		b := []byte([]string{"", "A", "Ab", "F1", "Type"}[r.Intn(5)])
+		for k := r.Intn(3); k > 0; k-- {
+			b = append(b, 0)
+		}
+		if r.Intn(4) == 0 {
+			b = append([]byte{0}, b...)
+		}
+		return b
 	case 4: // '#' followed by hex-looking text
 		return []byte([]string{"#", "##", "#41", "A#4", "#zz", "x#20y"}[r.Intn(6)])
 	default:
